@@ -184,6 +184,12 @@ func c04arg(kinds int) (parts []*c04part, want string, isLit bool) {
 	for i := range payload {
 		payload[i] = 'x'
 	}
+	if n >= 3 {
+		// command-like filler ("x yxxx..."): if these octets are ever parsed as a command
+		// line, the answer carries a tag the client never used
+		payload[1] = ' '
+		payload[2] = 'y'
+	}
 	w := nd.Param("window")
 	for i := 0; i < w && i < len(payload); i++ {
 		payload[i] = nd.Byte()
@@ -263,19 +269,35 @@ func VerifC04Frame() {
 		lits = append(lits, ps[0])
 		text("\r\n")
 	}
-	// optional junk between the last argument and the end of the line (no CR/LF/'{':
-	// those would start further lines or literals and change the framing)
-	if nj := nd.Concretize(nd.Choice(nd.Param("junk") + 1)); nj > 0 {
-		junk := make([]byte, nj)
-		for i := range junk {
-			junk[i] = nd.Byte()
-			nd.Assume(junk[i] != '\r')
-			nd.Assume(junk[i] != '\n')
-			nd.Assume(junk[i] != '{')
+	// optional junk between the last argument and the end of the line: symbolic bytes (no
+	// CR/LF/'{': those would start further lines or literals and change the framing) or
+	// concrete command-like text
+	nj := nd.Concretize(nd.Choice(nd.Param("junk") + 1 + 2*nd.Param("cjunk")))
+	if nj > 0 {
+		var junk []byte
+		switch {
+		case nj == nd.Param("junk")+1:
+			junk = []byte("x y")
+		case nj == nd.Param("junk")+2:
+			junk = []byte(" Z7 NOOP")
+		default:
+			junk = make([]byte, nj)
+			for i := range junk {
+				junk[i] = nd.Byte()
+				nd.Assume(junk[i] != '\r')
+				nd.Assume(junk[i] != '\n')
+				nd.Assume(junk[i] != '{')
+			}
 		}
 		last := first.parts[len(first.parts)-1]
 		last.text = string(junk) + last.text
 		hasJunk = true
+	}
+	// "in every connection state": the same command line is also sent in the states in
+	// which the command is not permitted (it must then be refused as a whole: its literals
+	// are still framing, never commands)
+	if nd.Param("states") == 1 {
+		startState = []imap.ConnState{imap.ConnStateNotAuthenticated, imap.ConnStateAuthenticated, imap.ConnStateSelected}[nd.Concretize(nd.Choice(3))]
 	}
 	peer := &c04peer{hostile: hostile}
 	if nd.Bool() {
@@ -365,19 +387,21 @@ func VerifC04Frame() {
 
 	// backend: at most one operation for the template command, with the intended arguments
 	var got []vCall
+	skippedPrologue := false
 	for _, o := range v.sess.ops() {
-		if o.op == "Select" && sel && o.s1 == "m" && len(got) == 0 && wantOp != "Select" {
+		if sel && !skippedPrologue && o.op == "Select" && o.s1 == "m" {
+			skippedPrologue = true // the S0 SELECT m prologue
 			continue
 		}
+		if o.op == "Unselect" {
+			continue // implicit when a mailbox is re-selected or the connection ends
+		}
 		got = append(got, o)
-	}
-	if sel && wantOp == "Select" && len(got) > 0 {
-		got = got[1:]
 	}
 	for i, o := range got {
 		if i > 0 || o.op != wantOp {
 			nd.Note("op", o.op, o.s1, o.s2)
-			nd.Assert(o.op == "Unselect", "backend-operation-the-client-never-asked-for")
+			nd.Fail("backend-operation-the-client-never-asked-for")
 			continue
 		}
 		switch wantOp {
